@@ -330,6 +330,7 @@ def query_oracle(ctx, sc, v, results):
             ctx.violation({'class': 'query-advertises-later-op', 'op': o.name, 'version': vstr(v)},
                           {'version': v, 'advertised': [x.name for x in ops], 'operation': o.name},
                           'Query under KMIP %s advertises %s, introduced in KMIP %s' % (vstr(v), o.name, vstr(SPEC_OP_MIN[o])))
+    FRESH_QUERY[v] = [o.name for o in ops]
     return ops
 
 
@@ -385,8 +386,86 @@ def query_discover_cases(ctx, cases, meta, advertised):
         sc.close()
 
 
+def query_sequences(ctx, cases, meta):
+    """Query / DiscoverVersions on ONE engine under every ordered pair of versions: the answer belongs to the version of
+    the request that asked, whatever was asked before."""
+    QF = enums.QueryFunction
+    fsets = [[QF.QUERY_OPERATIONS], [QF.QUERY_OPERATIONS, QF.QUERY_OBJECTS], [QF.QUERY_OBJECTS],
+             [QF.QUERY_SERVER_INFORMATION, QF.QUERY_OPERATIONS, QF.QUERY_APPLICATION_NAMESPACES]]
+    clients = [[], [(1, 0), (1, 2), (2, 0)], [(2, 0), (1, 1)]]
+    for v1 in SUPPORTED:
+        sc = Scene(ctx)
+        eng = sc.eng
+        tried = {}
+        try:
+            order = [v1] + [v for v in SUPPORTED if v != v1] + [v1]
+            for step, v2 in enumerate(order):
+                for fs in fsets:
+                    r = eng.request([kdrv.query(fs)], version=v2)
+                    it = r['items'][0] if r['items'] else None
+                    if it is None or not kdrv.ok(it):
+                        ctx.disagreement('c16', {'Query failed under a supported version': v2, 'result': strip(it)})
+                        continue
+                    ops = [o if isinstance(o, OP) else o.value for o in (it['raw'].response_payload.operations or [])]
+                    history = [vstr(x) for x in order[:step]]
+                    ctx.case_seen(('query-seq', v1, v2, step, tuple(f.name for f in fs)))
+                    ctx.count('query-seq.%s' % ('first' if step == 0 else 'later'))
+                    if QF.QUERY_OPERATIONS in fs:
+                        cases.append('CQuery %s %s' % (cver(v2), cp.lst(ops, lambda o: cp.z(o.value))))
+                        meta.append(('query-seq', history, v2, [f.name for f in fs]))
+                    elif ops:
+                        ctx.violation({'class': 'query-answer', 'version': vstr(v2)}, {'earlier_versions_on_this_engine': history, 'version': v2,
+                                       'functions': [f.name for f in fs], 'advertised': [o.name for o in ops]},
+                                      'Query without QUERY_OPERATIONS lists operations')
+                    for o in ops:
+                        if (v2, o) not in tried:
+                            rr = eng.request([sc.payload(o, v2)], version=v2)
+                            tried[(v2, o)] = rr['items'][0] if rr['items'] else None
+                        res = tried[(v2, o)]
+                        if SPEC_OP_MIN[o] > v2 or res is None or res['reason'] == 'OPERATION_NOT_SUPPORTED':
+                            ctx.violation({'class': 'query-advertises-unavailable', 'op': o.name, 'version': vstr(v2)},
+                                          {'earlier_versions_on_this_engine': history, 'version': v2, 'functions': [f.name for f in fs],
+                                           'advertised': [x.name for x in ops], 'operation': o.name, 'result': strip(res)},
+                                          'after requests in KMIP %s on the same engine, Query under KMIP %s advertises %s, which KMIP %s does not have / the server refuses' % (
+                                              ', '.join(history) or '(none)', vstr(v2), o.name, vstr(v2)))
+                            break
+                    # completeness against the version's own table: what a fresh engine advertises under v2
+                    if QF.QUERY_OPERATIONS in fs:
+                        fresh = FRESH_QUERY.get(v2)
+                        if fresh is not None and [o.name for o in ops] != fresh:
+                            # not the property itself (fewer operations advertised is allowed by its wording); the CQuery case
+                            # above disagrees with the model, this records the concrete history for the replay
+                            ctx.disagreement('c16', {'Query answer depends on earlier requests of the engine': history, 'version': v2,
+                                                     'functions': [f.name for f in fs], 'advertised': [o.name for o in ops],
+                                                     'advertised_by_a_fresh_engine': fresh})
+                if v2 >= (1, 1):
+                    for client in clients:
+                        r = eng.request([kdrv.discover_versions(client)], version=v2)
+                        it = r['items'][0]
+                        if kdrv.ok(it):
+                            ans = [(p.major, p.minor) for p in it['raw'].response_payload.protocol_versions]
+                            cases.append('CDiscover %s %s' % (cp.lst(client, cver), cp.lst(ans, cver)))
+                            meta.append(('discover-seq', v1, v2, client))
+                            if any(not (x > y) for x, y in zip(ans, ans[1:])) or any(a not in SUPPORTED or (client and a not in client) for a in ans):
+                                ctx.violation({'class': 'discover-versions', 'version': vstr(v2)}, {'version': v2, 'client_list': client, 'answer': ans},
+                                              'DiscoverVersions answer is not a newest-first list of accepted versions')
+        finally:
+            sc.close()
+
+
+FRESH_QUERY = {}
+
+
 # ====================================================================================== D. attributes
 def attr_object(name):
+    if '#' in name:                      # 'State#1': the attribute with an explicit index
+        base, ix = name.split('#')
+        a = attr_object(base)
+        return kdrv.raw_attr(base, a.attribute_value, int(ix))
+    return _attr_object(name)
+
+
+def _attr_object(name):
     """An Attribute carrying `name`; a well-typed value where the engine can store one."""
     try:
         if name == 'Name':
@@ -409,6 +488,8 @@ def attr_object(name):
 
 
 def locate_filter(name):
+    if '#' in name:
+        return attr_object(name)
     if name == 'Fresh':
         return kdrv.raw_attr(name, primitives.Boolean(True, tag=enums.Tags.FRESH))
     if name == 'Name':
@@ -443,10 +524,14 @@ def attribute_matrix(ctx, cases, meta):
     singles = [[n] for n in table + extra]
     multis = [[rng.choice(table + extra) for _ in range(rng.randrange(2, 5))] for _ in range(12 if quick else 250)]
     multis += [['Name', 'Sensitive'], ['Sensitive', 'Fresh'], ['Fresh', 'Sensitive'], ['Cryptographic Algorithm', 'Bogus Attribute', 'Sensitive']]
+    # corpus: the multiplicity rules of the same walk decide when they come first (thorough tier, seed 2, 2026-09-26)
+    multis = [['Certificate Identifier', 'Certificate Identifier', 'X.509 Certificate Identifier'], ['State', 'State', 'Sensitive'],
+              ['Sensitive', 'State', 'State'], ['Link', 'Link', 'Sensitive'], ['Name', 'Name', 'Fresh'], ['State#1', 'Sensitive'],
+              ['Sensitive', 'State#1'], ['Link#2', 'Link', 'Fresh'], ['Fresh', 'Fresh'], ['Bogus Attribute', 'Bogus Attribute']] + multis
     for v in SUPPORTED:
         sc = Scene(ctx)
         eng = sc.eng
-        seen_gate = []
+        seen_gate = []            # [(template object, 'TOk' | ('TUnsupported', name) | 'TOther')] in processing order
         orig = eng.engine._process_template_attribute
 
         def spy(ta, _orig=orig):
@@ -454,9 +539,9 @@ def attribute_matrix(ctx, cases, meta):
                 out = _orig(ta)
             except Exception as e:
                 m = re.match(r'^The (.*) attribute is unsupported\.$', str(e))
-                seen_gate.append(m.group(1) if m and type(e).__name__ == 'InvalidField' else None)
+                seen_gate.append((ta, ('TUnsupported', m.group(1)) if m and type(e).__name__ == 'InvalidField' else 'TOther'))
                 raise
-            seen_gate.append(None)
+            seen_gate.append((ta, 'TOk'))
             return out
         eng.engine._process_template_attribute = spy
         try:
@@ -474,14 +559,22 @@ def attribute_matrix(ctx, cases, meta):
                     r = eng.request([req], version=v)
                     after = eng.dump()
                     it = r['items'][0]
-                    # the template holding our names is the last one processed that raised, or all passed
-                    refused = next((g for g in seen_gate if g is not None), None)
-                    tnames = names_in_request(label, req)
-                    cases.append('CTemplate %s %s %s' % (cver(v), cp.lst(tnames, cp.string), cp.option(refused, cp.string)))
-                    meta.append(('template', v, label, names))
-                    ctx.case_seen(('template', v, label, tuple(names)))
-                    ctx.count('template.%s.%s' % (label, 'gate-refused' if refused else ('ok' if kdrv.ok(it) else 'failed-later')))
-                    late = [n for n in names if SPEC_ATTR_MIN.get(n, (1, 0)) > v]
+                    ours = template_of(label, req)
+                    seen = [res for ta, res in seen_gate if ta is ours]
+                    if not seen:
+                        ctx.count('template.%s.not-reached' % label)      # the handler failed before it looked at our template
+                    else:
+                        obs = seen[0]
+                        items = [(a.attribute_name.value, a.attribute_index is not None,
+                                  a.attribute_index is not None and a.attribute_index.value != 0) for a in ours.attributes]
+                        cases.append('CTemplate %s %s %s' % (
+                            cver(v), cp.lst(items, lambda i: '(%s, %s, %s)' % (cp.string(i[0]), cp.boolean(i[1]), cp.boolean(i[2]))),
+                            obs if isinstance(obs, str) else '(TUnsupported %s)' % cp.string(obs[1])))
+                        meta.append(('template', v, label, names))
+                        ctx.case_seen(('template', v, label, tuple(names)))
+                        ctx.count('template.%s.%s' % (label, 'gate-refused' if not isinstance(obs, str) else
+                                                      ('multiplicity-refused' if obs == 'TOther' else ('ok' if kdrv.ok(it) else 'failed-later'))))
+                    late = [n.split('#')[0] for n in names if SPEC_ATTR_MIN.get(n.split('#')[0], (1, 0)) > v]
                     if late and (kdrv.ok(it) or before != after):
                         ctx.violation({'class': 'attr-accepted', 'op': label, 'attribute': late[0], 'version': vstr(v)},
                                       {'version': v, 'operation': label, 'attribute_names': names, 'result': strip(it), 'store_changed': before != after},
@@ -495,6 +588,7 @@ def attribute_matrix(ctx, cases, meta):
         for v in SUPPORTED:
             for names in singles + multis[:6]:
                 filt = [locate_filter(n) for n in names]
+                names = [a.attribute_name.value for a in filt]
                 r = sc.eng.request([kdrv.locate(filt)], version=v)
                 it = r['items'][0]
                 m = re.match(r'^The (.*) attribute is unsupported\.$', it['message'] or '')
@@ -552,7 +646,7 @@ def attribute_matrix(ctx, cases, meta):
         sc.close()
 
 
-def names_in_request(label, req):
+def template_of(label, req):
     p = req[1]
     if label in ('Create', 'Register', 'DeriveKey'):
         ta = p.template_attribute
@@ -562,7 +656,7 @@ def names_in_request(label, req):
         ta = p.private_key_template_attribute
     else:
         ta = p.public_key_template_attribute
-    return [a.attribute_name.value for a in ta.attributes]
+    return ta
 
 
 def acceptance_cases(ctx, cases, meta):
@@ -617,6 +711,7 @@ def run(ctx):
     acceptance_cases(ctx, cases, meta)
     advertised = operation_matrix(ctx, cases, meta)
     query_discover_cases(ctx, cases, meta, advertised)
+    query_sequences(ctx, cases, meta)
     attribute_matrix(ctx, cases, meta)
     c16_fields.field_cases(ctx, cases, meta)
     c16_session.session_cases(ctx, cases, meta)
@@ -624,7 +719,8 @@ def run(ctx):
     bad = ctx.run_cases('c16', HEADER, cases, 'check_vcase',
                         what='Version.v / Fields.v model vs KmipEngine, KmipSession, payload classes, ProtocolVersion')
     for i in bad[:20]:
-        ctx.disagreement('c16', describe(meta[i], cases[i]))
+        model = ctx.model_output(HEADER, 'model_view (%s)' % cases[i]) if len(cases[i]) < 20000 else None
+        ctx.disagreement('c16', describe(meta[i], cases[i]), model_says=model, impl_says=cases[i][:4000])
     for k in (0, len(cases) // 3, 2 * len(cases) // 3, len(cases) - 1):
         ctx.sample({'case': meta[k], 'coq': cases[k][:300]})
     ctx.cov['trusted_extra'] = [
@@ -634,7 +730,7 @@ def run(ctx):
         'hand-written SpecMinVersions / SpecFieldVersions tables (Version/Spec.v) and SPEC_* tables of harness/c16.py, from the KMIP 1.0-2.0 specifications']
 
 
-FAMILY = {'op-gate': 'ops', 'echo': 'ops', 'unsupported-version': 'ops', 'query-advertises-unavailable': 'ops',
+FAMILY = {'query-answer': 'ops', 'query-answer-depends-on-history': 'ops', 'answer-not-in-request-version': 'session', 'op-gate': 'ops', 'echo': 'ops', 'unsupported-version': 'ops', 'query-advertises-unavailable': 'ops',
           'query-advertises-later-op': 'ops', 'version-acceptance': 'accept', 'discover-versions': 'discover',
           'attr-accepted': 'attrs', 'attr-reported': 'attrs', 'field-sent': 'fields', 'field-accepted': 'fields',
           'echo-wire': 'session'}
@@ -650,6 +746,7 @@ def replay(ctx, rec):
     if fam in (None, 'ops', 'discover'):
         adv = operation_matrix(ctx, cases, meta)
         query_discover_cases(ctx, cases, meta, adv)
+        query_sequences(ctx, cases, meta)
     if fam in (None, 'attrs'):
         attribute_matrix(ctx, cases, meta)
     if fam in (None, 'fields'):
